@@ -21,7 +21,7 @@ RULE = (
     "FixedDistance, two bodies with RigidConnection, synthetic contribution with g/gamma/c/tau blocks) x attachments "
     "(none, gravity, spring force form, spring compliance form, Kelvin-Voigt compliance, Maxwell, Motor/PD/PID on the "
     "mechanism's revolute joint) x contact scenarios on an extra ball (none, resting mu=0, sticking mu=.3 with "
-    "tangential load, sliding mu=.3, open, two stacked spheres, plane accelerating from rest, spinning body with off-centre contact sphere) x initial state (rest, generic consistent spin); plus "
+    "tangential load, sliding mu=.3 in a generic direction and exactly along either tangent axis, open, closed contact of the mechanism's own tip body on a support (mu=0, .3; from rest), two stacked spheres, plane accelerating from rest, spinning body with off-centre contact sphere) x initial state (rest, generic consistent spin); plus "
     "inconsistent variants (joint velocity violation, position-level constraint violation (synthetic constraint with fixed reference), joint offset by moving a body between two assemblies (trivial if the joint re-anchors itself at the new q0), penetration, closed contact "
     "approaching, sphere-sphere penetration) x mechanisms x {rest, spin}. A consistent case is non-trivial if assemble "
     "returned and the residuals were evaluated; an inconsistent one if the inconsistency was really present"
@@ -30,7 +30,7 @@ ASSUMPTIONS = [
     "System evaluation methods (M, h, W_*, la_c, la_tau, g_ddot, gamma_dot, g_N_ddot, gamma_F, gamma_F_dot) are trusted here (C14 / C04-C08 check them)",
     "equation of motion residual r = M u_dot0 - h - W_g la_g0 - W_gamma la_gamma0 - W_c la_c0 - W_tau la_tau(t0,q0,u0) - W_N la_N0 - W_F la_F0",
     "tolerances: 1e-8*scale without active contact (direct linear solve), 1e-5*scale with active contacts (fixed point stops at |delta u_dot| < 1e-6); contact inequalities with 1e-6 slack",
-    "contacts act on an extra ball that is dynamically decoupled from the mechanism (the linear system is shared)",
+    "contacts act on an extra ball that is dynamically decoupled from the mechanism (the linear system is shared), except the tip_plane scenarios where the contact loads the mechanism's joints",
     "rejection = System.assemble raises any exception (the code uses assert)",
 ]
 MIN_NONTRIVIAL = 100
@@ -43,6 +43,9 @@ def cases(tier, seed):
         if att in ("motor", "pd", "pid") and mech not in ("pendulum", "double_pendulum"):
             continue
         if mech == "synth" and (att != "none" or init == "spin"):
+            continue
+        if con.startswith("tip_plane") and (init == "spin" or mech in ("synth", "slider")):
+            # spin would drive the tip into the support (inconsistent); the slider's prismatic joint makes the normal force indeterminate
             continue
         out.append({"kind": "consistent", "mech": mech, "attach": att, "contact": con, "init": init, "seed": seed})
     for bad in sc.INCONSISTENT:
